@@ -491,10 +491,25 @@ class LineYield:
         return out
 
     @classmethod
-    def enable(cls, scheduler):
+    def sync_codes(cls):
+        """Code objects that touch the synchronisation state (any name mentioning a locked list, a condition or a
+        lock): the only places where threads share in-memory state."""
+        codes = cls._codes or cls._collect()
+        out = []
+        for c in codes:
+            names = " ".join(c.co_names) + " " + " ".join(x for x in c.co_consts if isinstance(x, str))
+            if "locked" in names or "condition" in names or "_lock" in names:
+                out.append(c)
+        return out
+
+    @classmethod
+    def enable(cls, scheduler, focus="all"):
         import sys
         mon = sys.monitoring
         codes = cls._codes or cls._collect()
+        if focus == "sync":
+            codes = cls.sync_codes()
+            cls._sync_names = {c.co_name for c in codes}
         if mon.get_tool(cls.TOOL) is None:
             mon.use_tool_id(cls.TOOL, "hsverif-line-yield")
             mon.register_callback(cls.TOOL, mon.events.LINE, cls._on_line)
@@ -521,3 +536,29 @@ class LineYield:
             return
         s.line_points += 1
         s.yield_point(f"line:{code.co_name}:{line}")
+
+
+class FocusChooser:
+    """Random chooser whose switching probability depends on where the running thread is about to go: high at
+    statements of synchronisation code, moderate at file-system / lock operations, low elsewhere."""
+
+    def __init__(self, rng, p_sync=0.3, p_fs=0.1, p_line=0.01):
+        self.rng = rng
+        self.p = (p_sync, p_fs, p_line)
+
+    def __call__(self, sched, runnable, current):
+        if current not in runnable:
+            return self.rng.choice(runnable)
+        desc = sched.workers[current].pending or ""
+        if desc == "sleep":
+            others = [t for t in runnable if t != current]
+            return self.rng.choice(others) if others else current
+        if desc.startswith("line:"):
+            p = self.p[0] if desc.split(":")[1] in getattr(LineYield, "_sync_names", ()) else self.p[2]
+        else:
+            p = self.p[1]
+        if self.rng.random() < p:
+            others = [t for t in runnable if t != current]
+            if others:
+                return self.rng.choice(others)
+        return current
